@@ -7,6 +7,7 @@ import StarsimModel.Model.Rng
 import StarsimModel.Generated.GlobalReads
 import StarsimModel.Generated.SeedFacts
 import StarsimModel.Generated.RngConsts
+import StarsimModel.Generated.DistSites
 import StarsimModel.Lemmas.RngFrame
 
 namespace StarsimModel.C01
@@ -126,6 +127,52 @@ theorem C01_seed_changes_all (strict auto : Bool) (offset r r' : Nat) (force : B
     (step (fresh strict auto) (.init offset (some r) force)).1.seed ≠
     (step (fresh strict auto) (.init offset (some r') force)).1.seed := by
   rw [C01_seed_formula, C01_seed_formula]; omega
+
+/-! ### Distributions the simulation never seeds
+
+`Sim.init_dists` hands `rand_seed` to the distribution objects reachable from the simulation AT THAT MOMENT.  A
+distribution constructed later (inside `step`, `administer`, `init_post`, …) or one that initialises itself
+(`strict=False`: `Dist.__init__` calls `self.init()`, i.e. `process_seed(None, None)`) is seeded with the `none`
+argument.  `seedIn registered offset r` is the seed a freshly constructed distribution with path hash `offset` ends up
+with in a simulation whose seed is `r`. -/
+
+def seedIn (registered : Bool) (strict auto : Bool) (offset r : Nat) : Nat :=
+  (step (fresh strict auto) (.init offset (if registered then some r else none) false)).1.seed
+
+/-- **Changing the seed changes every stream — for registered distributions** (the hypothesis is what the regenerated
+    `Gen.DistSites` facts and the stream census of every reference run establish). -/
+theorem C01_seed_changes_every_stream_partial (strict auto : Bool) (offset r r' : Nat) (h : r ≠ r') :
+    seedIn true strict auto offset r ≠ seedIn true strict auto offset r' := by
+  unfold seedIn; simpa using C01_seed_changes_all strict auto offset r r' false h
+
+/-- A distribution that seeds itself gets the hash of its name and nothing else: the simulation seed does not enter. -/
+theorem C01_self_seeded_ignores_sim_seed (strict auto : Bool) (offset r : Nat) :
+    seedIn false strict auto offset r = offset := by
+  simp [seedIn, step, fresh, orSeed]
+
+/-- … so the full statement fails without the hypothesis: an unregistered distribution has the same seed, hence
+    (`default_rng(seed)`) the same stream, in simulations with different seeds. -/
+theorem C01_seed_changes_every_stream_counterexample :
+    ∃ (offset r r' : Nat), r ≠ r' ∧ seedIn false true true offset r = seedIn false true true offset r' :=
+  ⟨7, 1, 2, by decide, by decide⟩
+
+/-- non-vacuity: a registered distribution in two simulations -/
+example : seedIn true true true 7 1 = 8 ∧ seedIn true true true 7 2 = 9 := by decide
+
+/-- **Every distribution exists before the seeds are handed out, and none seeds itself** (regenerated from the source on
+    every run): distribution objects are constructed in `__init__`, in `init_pre` or in `People.get_age_dist` (called from
+    `People.__init__`) only; `Sim.init` runs `init_people` and every `init_pre` before `init_dists`, and `init_dists`
+    before the first values are drawn (`init_vals` / `init_post`); no construction passes `strict=` anything but `True`. -/
+theorem C01_dists_exist_before_seeding :
+    (∀ r ∈ Gen.DistSites.lateDists, r.2.2.1 = "init_pre" ∨ (r.2.1, r.2.2.1) = ("People", "get_age_dist")) ∧
+    Gen.DistSites.selfSeeded = [] ∧
+    Gen.DistSites.initPreBeforeInitDists = true ∧ Gen.DistSites.initDistsBeforeInitPost = true := by decide
+
+/-- The only generator simulation code ever constructs is a distribution's own, from its seed (`Dist.init`:
+    `np.random.default_rng(seed=self.seed)`): no module keeps a private generator seeded with anything else. -/
+theorem C01_only_dists_own_generators :
+    Gen.DistSites.rngConstructors =
+      [("starsim/distributions.py", "Dist", "init", "np.random.default_rng(seed=self.seed)")] := by decide
 
 /-- Re-initialising an already initialised distribution: the formula holds whenever the new simulation seed is
     non-zero … -/
